@@ -102,6 +102,7 @@ theorem parsePi_proto (s : Stream) : Proto (parsePi T txt s) false false := by
   · exact proto_lift _ _
   · apply proto_bind_lift; intro s1
     apply proto_bind_lift; rintro ⟨s2, target⟩
+    apply proto_bind_lift; intro s2'
     apply proto_bind_lift; rintro ⟨s3, content⟩
     apply proto_bind_lift; intro s4
     exact proto_bind _ _ _ (fun _ => false) _ (proto_emit _ _ _ rfl) (fun _ => proto_pure _ _)
